@@ -80,6 +80,59 @@ def q_from_float(F):
     return q
 
 
+_SPARSE_COUNTER = [0]
+SPARSE_VARIANTS = ("csr", "csc", "duplicate-slots", "explicit-zeros", "unsorted-indices", "narrow-dtype", "coo")
+
+
+def sp_plane(P, variant):
+    """one real plane as a scipy sparse matrix in the given STORAGE variant; every variant represents exactly P"""
+    from scipy import sparse
+    P = np.asarray(P, dtype=np.float64)
+    m, n = P.shape
+    if variant == "csc":
+        return sparse.csc_matrix(P)
+    if variant == "coo":
+        return sparse.coo_matrix(P)
+    if variant == "narrow-dtype":
+        if np.array_equal(np.rint(P), P) and np.all(np.abs(P) < 2 ** 15):      # larger integers: squares and products overflow int64 silently, like any numpy integer arithmetic (outside the claim)
+            return sparse.csr_matrix(P.astype(np.int64))
+        # (float32 planes are not used here: arithmetic on float32 data is single precision by numpy's own rules, and the
+        # double-precision bounds of the checks would call that a violation)
+        return sparse.csr_matrix(P)
+    if variant in ("duplicate-slots", "explicit-zeros", "unsorted-indices"):
+        data, idx, ptr = [], [], [0]
+        for i in range(m):
+            cols = [j for j in range(n) if P[i, j] != 0 or (variant == "explicit-zeros" and (i + j) % 3 == 0)]
+            if variant == "unsorted-indices":
+                cols = cols[::-1]
+            for j in cols:
+                if variant == "duplicate-slots" and P[i, j] != 0 and abs(P[i, j]) > 1e-290:
+                    data += [P[i, j] / 2, P[i, j] / 2]              # two stored slots for one entry: scipy defines them as summed
+                    idx += [j, j]
+                else:
+                    data.append(P[i, j])
+                    idx.append(j)
+            ptr.append(len(data))
+        M = sparse.csr_matrix((np.array(data, dtype=np.float64), np.array(idx, dtype=np.int32), np.array(ptr, dtype=np.int32)), shape=(m, n))
+        return M
+    return sparse.csr_matrix(P)
+
+
+def sp_quat(F, variant=None):
+    """float (m, n, 4) -> SparseQuaternionMatrix of the library under test.  Like the memory layout of dense arrays
+    (q_from_float), the STORAGE of the four planes cycles deterministically through formats that all represent exactly
+    the same matrix: CSR, CSC, COO, CSR with duplicate slots (summed by definition), with explicitly stored zeros, with
+    unsorted column indices, and with int64 planes when the values are small integers (VERIF_SPARSE_VARIANTS=0: always CSR)."""
+    if variant is None:
+        if os.environ.get("VERIF_SPARSE_VARIANTS", "1") == "0":
+            variant = "csr"
+        else:
+            _SPARSE_COUNTER[0] += 1
+            variant = SPARSE_VARIANTS[_SPARSE_COUNTER[0] % len(SPARSE_VARIANTS)]
+    F = np.asarray(F, dtype=np.float64)
+    return lib().utils.SparseQuaternionMatrix(*[sp_plane(F[..., c], variant) for c in range(4)], F.shape[:2])
+
+
 def to_int_lists(F):
     """float array (m,n,4) with integer values -> nested int lists; None if not integral."""
     R = np.rint(F)
